@@ -1,2 +1,57 @@
-(* C08 -- $SYS protection. (statements to be added) *)
-From WB Require Import Base.Str Model.Key Model.Store Model.Core.
+(* C08 -- Clients cannot alter or fake the server's $SYS information.
+   Statements only; proofs in Proofs/SysGuard.v. *)
+From WB Require Import Base.Str Base.Json Model.Key Model.Consts Model.Store Model.Entry Model.Core
+  Proofs.SysGuard.
+
+(* for a key whose first segment is literally $SYS, an ordinary client passes the guard exactly
+   for $SYS/clients/<own id>/{graveGoods,lastWill,clientName}[/...]; anything else is ReadOnlyKey *)
+Theorem C08_guard_literal :
+  forall key c, c <> 0 -> key <> [] ->
+    match split slash key with
+    | p0 :: rest =>
+        if str_eqb p0 s_SYS then
+          (check_read_only key c = None <->
+           exists p3 more, rest = s_clients :: client_str c :: p3 :: more /\
+                           (p3 = s_graveGoods \/ p3 = s_lastWill \/ p3 = s_clientName))
+          /\ (check_read_only key c <> None -> check_read_only key c = Some E_ReadOnlyKey)
+        else check_read_only key c = None
+    | [] => True
+    end.
+Proof. exact guard_literal. Qed.
+Print Assumptions C08_guard_literal.
+
+(* a request the guard refuses (set, cset, delete, pdelete, spub-init) changes nothing at all *)
+Theorem C08_refused_is_identity :
+  forall s c key code, check_read_only key c = Some code ->
+    (forall e f, do_insert s c key e f = (s, out_res (RErr code))) /\
+    do_delete s c key = (s, out_res (RErr code)) /\
+    do_pdelete s c false key = (s, out_res (RErr code)) /\
+    (forall t, do_spub_init s c t key = (s, out_res (RErr code))).
+Proof. exact refused_is_identity. Qed.
+Print Assumptions C08_refused_is_identity.
+
+(* known finding F4: the guard looks at the literal first segment, so a client's pdelete (or
+   grave good) with a wildcard first segment removes protected keys *)
+Definition sys_sentinel : str := s_SYS ++ [47; 115].          (* $SYS/s *)
+Theorem C08_pdelete_wildcard_refuted :
+  exists s pat, check_read_only pat 1 = None /\
+    do_get s sys_sentinel = RValue JNull /\
+    do_get (fst (do_pdelete s 1 false pat)) sys_sentinel = RErr E_NoSuchValue.
+Proof.
+  exists (fst (do_insert init 0 sys_sentinel (Plain JNull) true)), [35]. vm_compute. auto.
+Qed.
+Print Assumptions C08_pdelete_wildcard_refuted.
+
+(* known finding F5: publish has no guard; a subscriber of a protected key sees the client's value *)
+Theorem C08_publish_refuted :
+  exists s v, o_events (snd (do_publish s sys_sentinel v)) = [(0, EValue v)] /\ v = JStr [102].
+Proof.
+  exists (fst (do_subscribe init 0 1 sys_sentinel false true)), (JStr [102]). vm_compute. auto.
+Qed.
+Print Assumptions C08_publish_refuted.
+
+Example C08_nonvacuous :
+  check_read_only (s_SYS ++ [47] ++ s_clients) 1 = Some E_ReadOnlyKey /\
+  check_read_only (topic [s_SYS; s_clients; client_str 1; s_graveGoods]) 1 = None /\
+  check_read_only (topic [s_SYS; s_clients; client_str 2; s_graveGoods]) 1 = Some E_ReadOnlyKey.
+Proof. vm_compute. auto. Qed.
